@@ -3,8 +3,8 @@
 A case is a STACK of sibling scopes, the target's scope first (level 0) and every further level
 the scope in which the composite enclosing the previous level lives (parentless nodes, the
 children of a Workflow, the children of a -- possibly nested -- Macro).  Every level has data
-connections (applied in order on the real channels), hand-made signal connections (ran -> run,
-ran -> accumulate_and_run, applied in order), starting nodes, executor flags, nodes whose
+connections (applied in order on the real channels), hand-made signal connections (ran or failed
+-> run or accumulate_and_run, applied in order), starting nodes, executor flags, nodes whose
 function raises, nodes already failed.  run_impl builds the REAL objects, snapshots every
 level, calls `target.pull(run_parent_trees_too=...)` (`target()` is exactly that with True)
 and snapshots again; the call log is written by the node functions themselves.
@@ -28,8 +28,8 @@ FUEL = 60
 SHARD = 120
 RULE = ("stacks of 1-3 sibling scopes (parentless nodes / Workflow children / children of nested macros; 1-6 nodes per "
         "scope), forward data connections over three input channels (several connections per channel), optional "
-        "cyclic data (self edge, back edge -- also outside the target's reach), hand-made ran->run and "
-        "ran->accumulate_and_run connections in connection order, starting nodes, automate flag, executor flags, "
+        "cyclic data (self edge, back edge -- also outside the target's reach), hand-made ran->run, "
+        "ran->accumulate_and_run and failed->run/accumulate_and_run connections in connection order, starting nodes, automate flag, executor flags, "
         "one failing node (every node of the would-be executed set in the thorough tier), already-failed nodes / "
         "parents, permuted labels; EVERY node of the target scope as target, with and without parent scopes. "
         "Non-trivial = the closure has at least two nodes or the pull is refused; distinct = distinct case JSON")
@@ -38,8 +38,6 @@ TRUSTED = ["the iteration order of Python sets (closure) is not predicted: conne
            "temporary labels label+str(id) sort like the original labels (sibling labels of equal length, distinct)"]
 ASSUMPTIONS = ["fresh nodes, one pull per case (no cache hit); every node is triggered at most once during the pull",
                "siblings of enclosing composites are plain function nodes; the target is a function node",
-               "connections of the `failed` output signal are not modelled (observation: a failing upstream node "
-               "fires them, so a hand-wired failure handler outside the closure runs during a pull)",
                "data values are not modelled in Coq (the oracle checks the returned value against a plain-Python "
                "evaluation of the closure)"]
 
